@@ -309,7 +309,7 @@ impl TryFrom<&str> for LibraryPath {
 
 impl Serializable for LibraryPath {
     fn write_into<W: ByteWriter>(&self, target: &mut W) {
-        debug_assert!(self.path.len() < MAX_PATH_LEN, "path too long");
+        debug_assert!(self.path.len() <= MAX_PATH_LEN, "path too long");
         target.write_u16(self.path.len() as u16);
         target.write_bytes(self.path.as_bytes());
     }
